@@ -115,7 +115,8 @@ impl Axecutor {
         debug_log!("Creating Axecutor");
         let mut ax = Axecutor::empty();
 
-        ax.code_end_addr = code_start_addr + code.len() as u64;
+        // The end address is taken modulo 2^64: code may end exactly at the top of the address space
+        ax.code_end_addr = code_start_addr.wrapping_add(code.len() as u64);
         ax.state
             .registers
             .insert(SupportedRegister::RIP, initial_rip);
